@@ -91,12 +91,9 @@ func (n *CocagoParser) Visitor(f *ast.File, fset *token.FileSet, fileName string
 	currentPackage.Name = packageName
 
 	var funcType = ""
-	var lastIdent = ""
 
 	ast.Inspect(f, func(node ast.Node) bool {
 		switch x := node.(type) {
-		case *ast.Ident:
-			lastIdent = x.Name
 		case *ast.File:
 			currentFile.PackageName = x.Name.String()
 		case *ast.ImportSpec:
@@ -121,8 +118,18 @@ func (n *CocagoParser) Visitor(f *ast.File, fset *token.FileSet, fileName string
 			// every type declaration gets an entry of its own: currentStruct is overwritten by the next TypeSpec
 			ds := currentStruct
 			dsMap[currentStruct.NodeName] = &ds
-		case *ast.StructType:
-			AddStructType(currentStruct.NodeName, x, &currentFile, dsMap)
+			// only the type a declaration names is a data structure: a struct or interface type written in place
+			// (a field, a parameter, a result) declares nothing
+			switch t := x.Type.(type) {
+			case *ast.StructType:
+				AddStructType(currentStruct.NodeName, t, &currentFile, dsMap)
+			case *ast.InterfaceType:
+				// todo: dirty fix
+				if len(t.Methods.List) >= 1 {
+					iface := AddInterface(t, x.Name.Name, &currentFile)
+					dsMap[iface.NodeName] = &iface
+				}
+			}
 		case *ast.FuncDecl:
 			funcType = "FuncDecl"
 			currentFunc, recv := AddFunctionDecl(x, &currentFile)
@@ -139,13 +146,6 @@ func (n *CocagoParser) Visitor(f *ast.File, fset *token.FileSet, fileName string
 			}
 
 			funcType = ""
-		case *ast.InterfaceType:
-			// todo: dirty fix
-			if len(x.Methods.List) < 1 {
-				break
-			}
-			currentStruct := AddInterface(x, lastIdent, &currentFile)
-			dsMap[currentStruct.NodeName] = &currentStruct
 		default:
 			if reflect.TypeOf(x) != nil && reflect.TypeOf(output).String() != "*bytes.Buffer" {
 				//fmt.Fprintf(output, "Visitor case %s\n", reflect.TypeOf(x))
